@@ -80,6 +80,7 @@ type Obligation struct {
 	PerSolver []string
 	Relaxed   bool
 	Raw       string // complete SMT-LIB text (hand-posed lemma)
+	NAsserts  int    // number of assumptions visible to this obligation
 }
 
 type Enc struct {
@@ -401,6 +402,11 @@ func (f *Frame) srcText(instr ssa.Instruction) string {
 }
 
 func (e *Enc) addObl(o *Obligation) {
+	// an obligation may use the facts established before its program point, never the
+	// assumption that it itself (or a later check) holds
+	if o.NAsserts == 0 {
+		o.NAsserts = len(e.ctx.asserts)
+	}
 	// stable unique names: function + kind + label, with an ordinal for repeats
 	base := o.Name
 	e.oblSeq[base]++
